@@ -68,13 +68,21 @@ AddReq ==
             "C16_AddedAnswer", <<r.phase, r.n, r.ans_ok, r.ans_name, r.ans_match>>)
      /\ Line("COVER", ctx.id, "added")
 
+\* ... and keeps answering for it after further additions and after the provider was
+\* configured (with_timeout)
+AddCheck ==
+  /\ E("addcheck") /\ UNCHANGED ctx
+  /\ LET r == Rec[l] IN
+     Chk(r.ans_ok /\ r.ans_name = r.n /\ Range(r.ans_match) = Range(Cands(u, r.n)),
+         "C16_AddedAnswerChanged", <<r.phase, r.n, r.raw, r.ans_ok, r.ans_name, r.ans_match>>)
+
 QPanic ==
   /\ E("q_panic") /\ UNCHANGED ctx
   /\ Fail("C16_Panic", <<Rec[l].phase, Rec[l].what, Rec[l].id>>)
 
 End == E("end") /\ UNCHANGED ctx
 
-Next == Begin \/ Captured \/ QCands \/ QMatch \/ QDeps \/ AddReq \/ QPanic \/ End
+Next == Begin \/ Captured \/ QCands \/ QMatch \/ QDeps \/ AddReq \/ AddCheck \/ QPanic \/ End
 Spec == Init /\ [][Next]_vars
 
 Accepted ==
